@@ -35,8 +35,8 @@ MAX32 = 1 << 32
 class C16(Check):
     prop = "C16"
     quick_runs = 400
-    thorough_runs = 20000
-    run_wall = 60.0
+    thorough_runs = 8000
+    run_wall = 600.0
     rule = ("one run = one generation history (Session-Id / Acct-Multi-Session-Id AVPs from identity strings, typed "
             "messages created with session_id=identity, bulk re-origin via update_avps that may switch identity, "
             "Session-Id given as bytes) interleaved with steps of the simulated clock (0, ms, 1 s, many s, forward "
